@@ -42,8 +42,8 @@ CLAIMS = {
   note="trusted: go/ssa front end, SMT solvers. Not covered: the bound on the number of statements executed before the poll (unrolled executor loops), asynchronous delivery from another goroutine (sequential model), 'same results afterwards' (C12)",
   ref="DESIGN.md section 0.1, section 5 C13"),
  "C15": dict(
-  text="thin: only the mechanism the property names for functions: a function (or macro) declaration that fails to compile - any panic, from any point after the signature was computed - leaves the name bound to exactly what it was bound to when DeclFunc was entered (the previous function, or nothing), whatever the failed compilation did in between; proved over every panic exit of Comp.DeclFunc with its deferred restore",
-  note="trusted: go/ssa front end, SMT solvers, Comp.TypeFunction declares nothing in the enclosing scope, the contract of NewBind (verified under C14). Not covered: variables, constants, types (no roll-back exists: finding F12, hand-confirmed, recorded in DESIGN.md, not derived), methods and generic functions, compile-before-run, type redefinition",
+  text="thin: only the mechanism the property names for functions: a function (or macro) declaration that fails to compile - any panic, from any point after the signature was computed - leaves the name bound to exactly what it was bound to when DeclFunc was entered (the previous function, or nothing), whatever the failed compilation did in between; proved over every panic exit of Comp.DeclFunc with its deferred restore; the same for a named type declaration: once Comp.DeclType has forward-declared the name, any panic leaves Types[name] what it was on entry, or absent if it was absent",
+  note="trusted: go/ssa front end, SMT solvers, Comp.TypeFunction declares nothing in the enclosing scope, the contract of NewBind (verified under C14). Not covered: variables, constants and types of earlier declarations of the failing input (no roll-back exists: finding F12, hand-confirmed, recorded in DESIGN.md, not derived), methods and generic functions, compile-before-run, type redefinition",
   ref="DESIGN.md section 0.1, section 5 C15"),
  "C19": dict(
   text="partial: the documented stop rule, for all states: singleStep asks the debugger before a statement exactly when single-stepping is on and the call depth of the statement's frame is below the requested depth (both directions: a call-site assertion and a ghost call history), and hands the statement back untouched when single-stepping is off; applyDebugOp switches single-stepping on with the requested depth for Depth > 0 and off otherwise; the commands ask for depth: step = DebugOpStep, next = current depth + 1, finish = current depth, continue = DebugOpContinue - which is 'any depth / same or shallower / shallower / never'",
@@ -62,11 +62,11 @@ CLAIMS = {
   note="trusted: go/ssa front end, SMT solvers, Readline hands over lines that end in a newline. Not covered: losslessness of the concatenation, the line-continuation rules (operators, commas, keywords), the cut test itself, prompts, first-token position, EvalReader / ReadParseEvalPrint",
   ref="DESIGN.md section 0.1, section 5 C26"),
  "C27": dict(
-  text="partial (the second sentence of the property): for every position and every starting line, File.PositionFor / Position give the standard token.File position with the line shifted by the file's starting line when that position is valid, and unchanged otherwise (file name, column, offset never change); FileSet.PositionFor does so for the file the position belongs to and gives the zero position when there is none; File.Source hands out exactly the source line of that (unshifted) line number, or nothing when it is out of range; AddFile registers the file under its inner file with the starting line given",
-  note="trusted: token.File.PositionFor and token.FileSet.File pure, token.Position.IsValid() == (Line > 0), sync.Mutex without effect in the sequential model, go/ssa front end, SMT solvers. Not covered: the line counter advanced per chunk (Output.IncLine, Interp.Read, afterEval) and that errors / panics / debugger stops report these positions",
+  text="partial (the second sentence of the property, and one step of the first): one Interp.Read advances the line counter by exactly the newlines of the text in front of the first token of the chunk it returns (all of the text when it has no token, nothing when the token comes first), counted from the value the counter has when the reader returns; and for every position and every starting line, File.PositionFor / Position give the standard token.File position with the line shifted by the file's starting line when that position is valid, and unchanged otherwise (file name, column, offset never change); FileSet.PositionFor does so for the file the position belongs to and gives the zero position when there is none; File.Source hands out exactly the source line of that (unshifted) line number, or nothing when it is out of range; AddFile registers the file under its inner file with the starting line given",
+  note="trusted: token.File.PositionFor and token.FileSet.File pure, token.Position.IsValid() == (Line > 0), sync.Mutex without effect in the sequential model, go/ssa front end, SMT solvers. strings.Count an uninterpreted function. Not covered: afterEval (the rest of the chunk), histories of reads, and that errors / panics / debugger stops report these positions",
   ref="DESIGN.md section 0.1, section 5 C27"),
  "C28": dict(
-  text="partial: (1) Identical, IdenticalIgnoreTags, identical, identicalVar and Hasher.Hash, hashFor, hashTuple, hashVar, hashNamed, hashString return without failing (no index out of range, nil dereference, failed assertion, explicit panic, nil-map write) and write nothing but the hasher's memo table, for every well-formed type, with loop invariants; (2) the type-keyed map at bucket level, for all states: At returns the value of the first live entry of the key's bucket that Identical matches, else nil; Delete removes exactly that entry, reports whether there was one, adjusts the length by it, leaves every other entry and bucket as it was; Set replaces the value of that entry, or adds (key, value) in a dead slot or at the end, length +1, everything else as it was; Len returns the length",
+  text="partial: (0) sameName implements the identifier rule of the Go specification exactly (same spelling, and exported or same package path; a missing package equals only a missing package); (1) Identical, IdenticalIgnoreTags, identical, identicalVar and Hasher.Hash, hashFor, hashTuple, hashVar, hashNamed, hashString return without failing (no index out of range, nil dereference, failed assertion, explicit panic, nil-map write) and write nothing but the hasher's memo table, for every well-formed type, with loop invariants; (2) the type-keyed map at bucket level, for all states: At returns the value of the first live entry of the key's bucket that Identical matches, else nil; Delete removes exactly that entry, reports whether there was one, adjusts the length by it, leaves every other entry and bucket as it was; Set replaces the value of that entry, or adds (key, value) in a dead slot or at the end, length +1, everything else as it was; Len returns the length",
   note="trusted: well-formedness of types (go/types/zz_verif_types.go: no nil element, no typed nil component, embedded interfaces named), purity of Identical and Hash, go/ssa front end, SMT solvers. Not covered: reflexivity, symmetry, transitivity, 'identical implies equal hash' (relational properties over recursive structure: need induction over two runs; exercised only by the replay search), termination on cyclic types, Iterate/Keys/Values/String, that different buckets hold no identical keys",
   ref="DESIGN.md section 0.1, section 5 C28"),
  "C36": dict(
